@@ -77,7 +77,7 @@ m = dict(
     engines=[dict(name="minisim", path="sim", serves_properties=[c["property_id"] for c in checks],
                   kind_free_text="hand-written deterministic simulator (Rust): scripted Read/Write/AsyncRead/AsyncWrite stubs, single-task executor that owns poll/cancel decisions, counting allocator, seeded scenario generator, delta-debugging minimiser, JSON replay files")],
     checks=checks,
-    notes="Technique family: deterministic simulation with fault injection. Properties whose truth is a pure function of the arguments of one call are listed under not_applicable (DESIGN.md §0, §5). known_findings.json: one genuine C14 defect (reader buffer growth beyond max_len), repaired by /repo commit e713753 (fix:); no open findings. tools/selftest.sh proves sensitivity against mutants/ and seeded/; ./check determinism proves replayability.",
+    notes="Technique family: deterministic simulation with fault injection. Properties whose truth is a pure function of the arguments of one call are listed under not_applicable (DESIGN.md §0, §5). known_findings.json: one genuine C14 defect (reader buffer growth beyond max_len), repaired by /repo commit e713753 (fix:); no open findings. tools/selftest.sh proves sensitivity against mutants/ (59) and seeded/ (182 independently written changes, 14 rounds) and the absence of false alarms against controls/ (37 correct re-implementations); tools/mutsweep.py sweeps every single-site syntactic mutant of the anchored files (184 of 193 compiling mutants killed, 9 triaged as equivalent or outside the properties); ./check determinism proves replayability (26 seeds x 3 worker counts x separate processes). Results: DESIGN.md sections 10.3, 11, 12, 13.",
     not_applicable=na)
 json.dump(m, open(os.path.join(here, "MANIFEST.json"), "w"), indent=1)
 print("MANIFEST.json:", [c["property_id"] for c in checks], "NA:", len(na))
